@@ -9,7 +9,9 @@ that instant completes normally although what it waits for was not available; (d
 
 from __future__ import annotations
 
-from .. import treecheck
+import itertools
+
+from .. import treecheck, treefam
 
 PROPERTY = "C03"
 LEVEL = "exploration"
@@ -31,7 +33,7 @@ SHARD_TIMEOUT = {"quick": 300, "thorough": 1500}
 
 
 def all_cases(tier: str, seed: int):  # noqa: ANN201
-    yield from treecheck.cases("c03", tier, seed, 4000, 60000)
+    yield from treecheck.cases("c03", tier, seed, 4000, 60000, extra=lambda: itertools.chain(treefam.spawn_into_cancelled(), treefam.scope_chains()))
 
 
 def shards(tier: str, seed: int) -> list[dict]:
